@@ -43,6 +43,16 @@ SCENARIOS = [
     "function f(){ var cap = 1; function g(){ probe(); return function(){ return cap++ } } probe(); g()(); (function(){ let blk = 2; probe(); return () => blk })()(); }",
     "function f(){ reenter('probe(); try { probe(); throw 1 } catch(e) { probe() } finally { probe() }'); probe(); callfn(function(){ probe(); return 1 }); probe(); }",
     # a native that re-enters RunProgram and swallows a script exception (also the stack overflow at the depth limit): the caller's frame is intact
+    # a native promise-job handler re-enters the runtime (swallowing the error): the nested run is NOT the outermost call, whether f was
+    # entered through RunProgram or through a Callable - an interrupt in it stops the outer call too, later jobs do not run
+    "function f(){ Promise.resolve().then(function(){ probe(); reenterq('probe(); Promise.resolve().then(function(){ probe() }); probe(); 1'); probe() }); "
+    "Promise.resolve().then(function(){ probe(); log(2) }); probe(); }",
+    "function f(){ Promise.resolve().then(function(){ reenter('probe(); try { probe() } finally { probe() }') }); Promise.resolve().then(function(){ probe() }); }",
+    "function f(){ Promise.resolve().then(function(){ reenterz('probe(); Promise.resolve().then(function(){ probe() }); probe()') }); Promise.resolve().then(function(){ probe(); log(2) }); }",
+    "function f(){ reenterz('probe(); probe()'); probe(); Promise.resolve().then(function(){ reenterz('probe()'); probe() }); }",
+    # (the job handler IS the native function: no script frame between the job queue and the nested entry)
+    "function f(){ Promise.resolve('probe(); Promise.resolve().then(function(){ probe() }); probe()').then(reenterz); Promise.resolve().then(function(){ probe(); log(2) }); }",
+    "function f(){ Promise.resolve('probe(); 1').then(reenterz).then(function(){ probe() }); Promise.resolve('probe()').then(reenterq); Promise.resolve('probe(); 2').then(reenter); probe(); }",
     "function f(){ function d(n){ var r = reenterq('probe(); 1'); var s = r + 5; expect(s === 'ok5' || s === 'err5', s); return n > 0 ? d(n - 1) : s } d(3); probe(); }",
     # built-ins that keep runtime-wide bookkeeping while they call back into script (join's cycle detection)
     "function f(){ var a = [1, {toString(){ probe(); return 'b' }}, 3]; a.join('-'); probe(); String([a, 4]); var sep = {toString(){ probe(); return '+' }}; [1, 2].join(sep); a.toString(); a.toLocaleString(); probe(); }",
